@@ -44,7 +44,7 @@ def parseTopic (s : String) : Option MTopic :=
 
 def parseBroker (s : String) : Option MBroker :=
   match s.splitOn "@" with
-  | [i, h] => do let i ← i.toInt?; pure ⟨i, h, 9092, ""⟩
+  | [i, h, p] => do let i ← i.toInt?; let p ← p.toInt?; pure ⟨i, h, p, ""⟩
   | _ => none
 
 def parseMeta (s : String) : Option MResponse :=
@@ -92,7 +92,7 @@ def showPart (k : Int) (p : Partition) : String :=
 def showLayout (c : Cluster) : String :=
   let bs := sortBy (fun a b => a.1 < b.1) c.brokers
   let ts := sortBy (fun a b => a.1 < b.1) c.topics
-  let b := ",".intercalate (bs.map fun (k, b) => s!"{k}>{b.id}@{b.host}")
+  let b := ",".intercalate (bs.map fun (k, b) => s!"{k}>{b.id}@{b.host}@{b.port}")
   let t := "|".intercalate (ts.map fun (n, t) =>
     let ps := sortBy (fun a b => a.1 < b.1) t.partitions
     s!"{n}>{t.name}:{t.error}:{dash (",".intercalate (ps.map fun (k, p) => showPart k p))}")
@@ -120,10 +120,14 @@ def specLeader (m : MResponse) (t : String) (p : Int) : Option Int :=
 
 def listed (m : MResponse) (b : Int) : Bool := m.brokers.any (·.nodeID == b)
 
+/-- host:port the description gives for broker `b` -/
+def listedAddr (m : MResponse) (b : Int) : Option String :=
+  (m.brokers.find? (·.nodeID == b)).map fun x => s!"{x.host}:{x.port}"
+
 def specLayout (m : MResponse) : String :=
   let bs := sortBy (fun a b => a.nodeID < b.nodeID) m.brokers
   let ts := sortBy (fun a b => a.name < b.name) (m.topics.filter (!·.internal))
-  let b := ",".intercalate (bs.map fun b => s!"{b.nodeID}>{b.nodeID}@{b.host}")
+  let b := ",".intercalate (bs.map fun b => s!"{b.nodeID}>{b.nodeID}@{b.host}@{b.port}")
   let t := "|".intercalate (ts.map fun t =>
     let ps := sortBy (fun a b => a.index < b.index) t.partitions
     s!"{t.name}>{t.name}:{t.error}:{dash (",".intercalate (ps.map fun p => s!"{p.index}>{showMPart p}"))}")
@@ -160,24 +164,27 @@ def parseVT (s : String) : Option VTable :=
     | _ => none
 
 inductive Sent where
-  | ok (b : Int) (v : Int)
+  | ok (b : Int) (addr : String) (v : Int)
   | err (k : String)
 
+def showAddr (a : Addr) : String := s!"{a.1}:{a.2}"
+
 def sendOne (a : ApiMethods) (boot : Int) (c : Cluster) (down : List Int) (vt : VTable) (r : ReqInfo) : Sent :=
-  let conns := keys c.brokers
-  let atB (b : Int) : Sent :=
+  -- the pool's groups: by `conns_invariant`, one per broker of the layout at the layout's address
+  let conns : List (Int × Addr) := c.brokers.map fun (k, b) => (k, b.addr)
+  let atB (b : Int) (addr : String) : Sent :=
     if down.contains b then .err "dial" else
     let table := ((vt.lookup b).getD []).map fun e => (a.apiKey, e.1, e.2)
     match requestVersion clientOf (negotiate clientOf table) a.apiKey with
-    | some v => .ok b v
+    | some v => .ok b addr v
     | none => .err "unsupported"
   match route sendRequestCases a c conns r with
-  | .broker id => atB id
-  | .control => atB boot
+  | .broker id addr => atB id (showAddr addr)
+  | .control => atB boot (showAddr (lookupD c.brokers boot Broker.zero).addr)
   | .err e => .err (errName e)
 
 def showSent (xs : List Sent) (overallErr : Option String) : String :=
-  let oks := xs.filterMap fun | .ok b v => some s!"b{b}@v{v}" | _ => none
+  let oks := xs.filterMap fun | .ok b a v => some s!"b{b}~{a}@v{v}" | _ => none
   let oks := sortBy (fun a b => a < b) oks
   match overallErr, oks with
   | some e, [] => s!"err {e}"
@@ -195,8 +202,21 @@ def sendModel (a : ApiMethods) (boot : Int) (m : MResponse) (down : List Int) (v
     -- Merge: an error only when every part failed
     let allFailed := !rs.isEmpty && rs.all fun | .err _ => true | _ => false
     showSent rs (if allFailed then firstErr rs else none)
-  else if a.pkg == "describegroups" && splits then
+  else if a.group && splits then
+    -- describegroups (and every group request type that splits per group): one part per group
     let rs := coords.map fun co => sendOne a boot c down vt { coordinator := co }
+    showSent rs (firstErr rs)
+  else if a.pkg == "listgroups" && splits then
+    -- one part per broker of the layout (Go map order: the error reported is any part's)
+    let rs := c.brokers.map fun (k, _) => sendOne a boot c down vt { field := k }
+    showSent rs ((firstErr rs).map fun _ => "some")
+  else if a.pkg == "describeconfigs" && splits then
+    -- one part per broker resource, then one for all other resources
+    let brokerRs := q.info.resources.filter (·.1 == 4)
+    let rest := q.info.resources.filter (·.1 != 4)
+    let parts := brokerRs.map (fun r => ({ resources := [r] } : ReqInfo)) ++
+      (if rest.isEmpty then [] else [({ resources := rest } : ReqInfo)])
+    let rs := parts.map (sendOne a boot c down vt)
     showSent rs (firstErr rs)
   else
     let r := { q.info with coordinator := coords.headD (-1) }
@@ -205,7 +225,7 @@ def sendModel (a : ApiMethods) (boot : Int) (m : MResponse) (down : List Int) (v
 
 /-! ### `send`: the property monitor on the journal -/
 
-def parseSent (s : String) : Option (List (Int × Int) × Option String) :=
+def parseSent (s : String) : Option (List (Int × String × Int) × Option String) :=
   let (okPart, err) :=
     match s.splitOn " err " with
     | [a, e] => (a, some e)
@@ -213,7 +233,10 @@ def parseSent (s : String) : Option (List (Int × Int) × Option String) :=
   do
     let oks ← (splitD okPart ",").mapM fun e =>
       match (e.drop 1).toString.splitOn "@v" with
-      | [b, v] => do let b ← b.toInt?; let v ← v.toInt?; pure (b, v)
+      | [b, v] =>
+        match b.splitOn "~" with
+        | [b, a] => do let b ← b.toInt?; let v ← v.toInt?; pure (b, a, v)
+        | _ => none
       | _ => none
     pure (oks, err)
 
@@ -231,7 +254,9 @@ def sendHolds (key : Nat) (split : Bool) (boot : Int) (m : MResponse) (down : Li
     let live (b : Int) : Bool := listed m b && !down.contains b &&
       ((vt.lookup b).getD []).any (fun (bmin, bmax) => KV.Spec.Routing.overlap cr.1 cr.2 bmin bmax)
     -- version clause: against some range the broker advertised for this key
-    let verOK := oks.all fun (b, v) =>
+    -- address clause: every request was dialled at the address the last metadata gives for its broker
+    let addrOK := oks.all fun (b, a, _) => match listedAddr m b with | some want => a == want | none => true
+    let verOK := oks.all fun (b, _, v) =>
       match (vt.lookup b).getD [] with
       | [] => true
       | rs => rs.any fun (bmin, bmax) => bmin > bmax || versionOK cr.1 cr.2 bmin bmax v
@@ -242,10 +267,16 @@ def sendHolds (key : Nat) (split : Bool) (boot : Int) (m : MResponse) (down : Li
         if split then
           -- every requested partition with a live leader is asked at that leader
           let want := tps.filterMap fun (t, p) => match specLeader m t p with | some l => if live l then some l else none | none => none
-          (want.foldl (fun acc l => acc.bind (removeOne l)) (some (oks.map (·.1)))).isSome
+          -- … and nothing is sent to any other broker, except through the bootstrap connection for parts
+          -- the metadata designates no broker for (unknown topic / partition / leader)
+          match want.foldl (fun acc l => acc.bind (removeOne l)) (some (oks.map (·.1))) with
+          | some extra =>
+            let leaders := tps.filterMap fun (t, p) => specLeader m t p
+            extra.all fun b => b == boot || leaders.contains b
+          | none => false
         else
           match oks, err with
-          | [(b, _)], none => tps.all fun (t, p) => specLeader m t p == some b
+          | [(b, _, _)], none => tps.all fun (t, p) => specLeader m t p == some b
           | [], some _ =>
             -- refusing is right unless one live broker leads every requested partition
             !(match tps with
@@ -255,15 +286,17 @@ def sendHolds (key : Nat) (split : Bool) (boot : Int) (m : MResponse) (down : Li
                 | none => false)
           | _, _ => false
       | some .groupCoordinator | some .txnCoordinator =>
+        -- DescribeGroups is split per group; DeleteGroups documents the precondition that all its groups share the
+        -- first group's coordinator (Client.DeleteGroups doc comment), so only that one is demanded
         let want := if split then coords else [coords.headD (-1)]
         if want.any (· < 0) then true   -- the coordinator lookup failed: outside the property's hypothesis
         else if want.all live then err.isNone && sortBy (· < ·) (oks.map (·.1)) == sortBy (· < ·) want
         else (oks.map (·.1)).all want.contains
       | some .controller =>
         if live m.controller then err.isNone && oks.map (·.1) == [m.controller] else true
-      | some .anyBroker => err.isNone && oks.all (fun (b, _) => b == boot || listed m b)
+      | some .anyBroker => err.isNone && oks.all (fun (b, _, _) => b == boot || listed m b)
       | none => true
-    verOK && routeOK
+    addrOK && verOK && routeOK
 
 /-! ### dispatcher -/
 
